@@ -188,7 +188,7 @@ func RunChildMarked(args []string, env []string, timeout time.Duration) (*ChildR
 	if ctx.Err() != nil {
 		problem = "TIMEOUT"
 	} else if res == nil {
-		problem = fmt.Sprintf("child ended without a result (%v); stderr tail: %s", runErr, stderr.tail)
+		problem = fmt.Sprintf("child ended without a result (%v)%s; stderr tail: %s", runErr, stderr.fatal, stderr.tail)
 	}
 	// exit status 66 = "races were reported": expected, not a problem
 	return res, races, problem, stderr.p.marks.open
@@ -199,12 +199,25 @@ const raceHeader = "WARNING: DATA RACE"
 // raceSink is the child's stderr: it hands complete reports to the parser as
 // they arrive and keeps only the distinct ones and the last 1500 bytes.
 type raceSink struct {
-	p    *raceParser
-	acc  []byte
-	tail []byte
+	p     *raceParser
+	acc   []byte
+	tail  []byte
+	fatal string // the first "fatal error:" / "panic:" line of the runtime
 }
 
 func (k *raceSink) Write(b []byte) (int, error) {
+	if k.fatal == "" {
+		for _, w := range []string{"fatal error: ", "panic: "} {
+			if i := bytes.Index(b, []byte(w)); i >= 0 && (i == 0 || b[i-1] == '\n') {
+				l := b[i:]
+				if j := bytes.IndexByte(l, '\n'); j >= 0 {
+					l = l[:j]
+				}
+				k.fatal = ": " + string(l)
+				break
+			}
+		}
+	}
 	k.acc = append(k.acc, b...)
 	k.tail = append(k.tail, b...)
 	if len(k.tail) > 1500 {
